@@ -116,6 +116,8 @@ func (p *poller) addDialer(c *Conn) error {
 			fd,
 			len(p.g.connsUnix),
 		)
+		// the failure is reported once, by the returned error.
+		c.onConnected = nil
 		_ = c.closeWithError(err)
 		return err
 	}
@@ -124,7 +126,11 @@ func (p *poller) addDialer(c *Conn) error {
 	c.isWAdded = true
 	err := p.addReadWrite(fd)
 	if err != nil {
+		// the dial was never accepted: the failure is reported once, by the
+		// returned error, and there is no close notification to account for.
 		p.g.connsUnix[fd] = nil
+		c.onConnected = nil
+		c.p = nil
 		_ = c.closeWithError(err)
 	}
 	return err
